@@ -568,7 +568,7 @@ func (m *monitor) runModule() {
 			c.Count("module_function_calls", 1)
 			c.Eval(1)
 			if pn != nil {
-				m.failf("C04 panic module-function "+mf.pattern, "calling %s of %s after it finished panicked: %v at %s", mf.expr, eu.u.file, pn.Value, pn.TopFrame())
+				m.failf("C04 panic module-function "+mf.site, "calling %s of %s after it finished panicked: %v at %s", mf.expr, eu.u.file, pn.Value, pn.TopFrame())
 				continue
 			}
 			after := snapAll()
@@ -577,9 +577,9 @@ func (m *monitor) runModule() {
 				// the state this function mutates was left unfrozen: already reported as not-frozen
 				c.Count("secondary_effects_of_unfrozen_nodes", 1)
 			case cerr == nil:
-				m.failf("C04 mutation-allowed module-function "+mf.pattern, "%s (a function of %s that mutates state reachable from its globals) succeeded after the module finished (%s); changed=%v", mf.expr, eu.u.file, outcome, after != before)
+				m.failf("C04 mutation-allowed "+mf.site, "%s (a function of %s, shape %s, that applies %s to state reachable from its globals) succeeded after the module finished (%s); changed=%v", mf.expr, eu.u.file, mf.pattern, mf.site, outcome, after != before)
 			case after != before:
-				m.failf("C04 changed globals via module-function "+mf.pattern, "%s changed state reachable from the globals of a finished module (err=%v): %s", mf.expr, cerr, firstDiff(before, after))
+				m.failf("C04 changed globals via module-function "+mf.site, "%s (shape %s) changed state reachable from the globals of a finished module (err=%v): %s", mf.expr, mf.pattern, cerr, firstDiff(before, after))
 			}
 			if isFrozenErr(cerr) {
 				c.Count("module_function_rejected_frozen", 1)
